@@ -15,11 +15,20 @@ func execSemaSeq(args []string) string {
 	cancelled, cancel := context.WithCancel(context.Background())
 	cancel()
 	var out []string
+	held, capacity := 0, Atoi(args[0])
 	for _, op := range args[1] {
 		switch op {
 		case 'a':
-			ctx, cf := context.WithTimeout(context.Background(), 3*time.Millisecond)
+			// by the harness's own count a slot is free: the Acquire has to succeed at once, so the
+			// deadline may be far away (a short one could expire first on a loaded machine and make
+			// Go's select choose between two ready cases); with no free slot it has to wait out 3 ms
+			patience := 3 * time.Millisecond
+			if held < capacity {
+				patience = 5 * time.Second
+			}
+			ctx, cf := context.WithTimeout(context.Background(), patience)
 			if err := s.Acquire(ctx); err == nil {
+				held++
 				out = append(out, "ok")
 			} else if err == context.DeadlineExceeded {
 				out = append(out, "err")
@@ -29,6 +38,7 @@ func execSemaSeq(args []string) string {
 			cf()
 		case 'c':
 			if err := s.Acquire(cancelled); err == nil {
+				held++
 				out = append(out, "ok")
 			} else if err == context.Canceled {
 				out = append(out, "err")
@@ -37,6 +47,9 @@ func execSemaSeq(args []string) string {
 			}
 		case 'r':
 			s.Release()
+			if held > 0 {
+				held--
+			}
 			out = append(out, "-")
 		}
 	}
